@@ -452,7 +452,7 @@ pub fn cross_scope_program(dir: usize, jump: usize) -> (Prog, Id) {
 // (3) One fault
 // ---------------------------------------------------------------------------
 
-pub const FAULTS: [&str; 13] = [
+pub const FAULTS: [&str; 14] = [
     "division by zero",
     "integer overflow",
     "subscript out of range",
@@ -466,6 +466,7 @@ pub const FAULTS: [&str; 13] = [
     "RETURN label without GOSUB",
     "error inside a FUNCTION that is the right operand of a binary operator",
     "error inside a FUNCTION called in the subscript of an assignment target",
+    "error inside the second FUNCTION call of a statement, which runs deeper on the stack than the first",
 ];
 
 pub const CONTAINERS: [&str; 17] = [
@@ -513,6 +514,7 @@ fn failing(b: &mut B, fault: usize) -> Stmt {
         9 => b.assign(var("S$"), bin(BinOp::Add, call("Arm$", vec![num(1)]), builtin("LEFT$", vec![st("abc"), var("M%")]))),
         10 => b.s(K::Return(Some("After".into()))),
         11 => b.assign(var("X%"), bin(BinOp::Add, num(5), call("FailF%", vec![num(1)]))),
+        13 => b.assign(var("X%"), bin(BinOp::Add, call("Okn%", vec![num(1)]), Expr::Paren(Box::new(bin(BinOp::Add, num(2), Expr::Paren(Box::new(bin(BinOp::Add, num(3), call("FailF%", vec![num(1)]))))))))),
         12 => b.assign(Expr::Index("A%".into(), vec![bin(BinOp::Add, num(1), bin(BinOp::Mul, call("FailF%", vec![num(1)]), num(0)))]), num(3)),
         _ => b.s(K::Return(None)),
     }
@@ -534,7 +536,7 @@ pub fn fault_program(fault: usize, container: usize, position: usize, handler: u
     }
     // (fault 8 is repaired like fault 3: M% = 1)
     // RESUME label out of a subprogram is outside the reference
-    let fault_in_sub = matches!(fault, 5 | 6 | 11 | 12) || matches!(container, 7 | 8);
+    let fault_in_sub = matches!(fault, 5 | 6 | 11 | 12 | 13) || matches!(container, 7 | 8);
     if handler == 3 && fault_in_sub {
         return None;
     }
@@ -752,7 +754,12 @@ pub fn fault_program(fault: usize, container: usize, position: usize, handler: u
         let id = b.id();
         subs.push(SubDef { id, name: "Okf$".into(), is_function: true, params: vec![Param { name: "P%".into(), ty: None, is_array: false }], body, is_static: false });
     }
-    if matches!(fault, 6 | 11 | 12) {
+    if fault == 13 {
+        let body = vec![b.print(vec![st("okn")]), b.assign(var("Okn%"), num(3))];
+        let id = b.id();
+        subs.push(SubDef { id, name: "Okn%".into(), is_function: true, params: vec![Param { name: "P%".into(), ty: None, is_array: false }], body, is_static: false });
+    }
+    if matches!(fault, 6 | 11 | 12 | 13) {
         let body = vec![b.assign(var("FailF%"), bin(BinOp::Div, num(8), var("Z%"))), b.print(vec![st("failf out")])];
         let id = b.id();
         subs.push(SubDef { id, name: "FailF%".into(), is_function: true, params: vec![Param { name: "P%".into(), ty: None, is_array: false }], body, is_static: false });
